@@ -684,12 +684,21 @@ Definition used_d (cfg : snapshot) (g : group) : bool :=
   || ((b_group b =? 2) && (eb g <=? cfg_corr cfg RT INFO) && (ed g <=? cfg_corr cfg RT DATA))
   || ((b_ver b =? 0) && (b_group b =? 10) && (eb g <=? cfg_corr cfg PTYN INFO) && (ed g <=? cfg_corr cfg PTYN DATA))
   || ((b_ver b =? 0) && (b_group b =? 4) && (eb g =? 0) && (ec g =? 0) && (ed g =? 0)).
-(* g and g' carry the same error codes and agree on every block that is accepted *)
+(* the bits of a block B that is accepted with a corrected error (only as the address of text
+   characters): group type and version, and the cell address (type 0: 2 bits; type 2: A/B flag and
+   4 bits; 10A: 1 bit).  PTY, TP, TA, MS and the remaining bits are accepted error-free only. *)
+Definition b_key (b : Z) : Z :=
+  (b / 2048) * 32
+  + (if b_group b =? 0 then b mod 4 else if b_group b =? 2 then b mod 32
+     else if (b_group b =? 10) && (b_ver b =? 0) then b mod 2 else 0).
+Definition b_equiv (e_b b b' : Z) : bool := if e_b =? 0 then b =? b' else b_key b =? b_key b'.
+(* g and g' carry the same error codes and agree on every block — for a corrected block B: on every
+   bit of it — that is accepted *)
 Definition dontcare_equiv (cfg : snapshot) (g g' : group) : bool :=
   (ea g =? ea g') && (eb g =? eb g') && (ec g =? ec g') && (ed g =? ed g')
   && ((negb (ea g =? 0)) || (ga g =? ga g'))
   && (if used_b cfg (eb g) (gb g) || used_b cfg (eb g) (gb g') then
-        (gb g =? gb g')
+        b_equiv (eb g) (gb g) (gb g')
         && (negb (used_c cfg g) || (gc g =? gc g'))
         && (negb (used_d cfg g) || (gd g =? gd g'))
       else true).
